@@ -637,9 +637,12 @@ def worker_C16(payload):
         if x["type"] == "ZeroDivisionError" and "run_single_timestep" in str(x["origin"]) and not sim.crop_params[cfg["crop"]["name"]].get("YldWC") \
                 and not cfg["crop"].get("kwargs", {}).get("YldWC"):
             tag = ":YldWC0"
+        # the season list of the window is empty (no planting date whose season fits: CalendarP.season_list_error_iff) and the code indexes
+        # its first element — identified by the two statements that do so, not by the window length (a window of 379 days starting the day
+        # after a planting date and ending before the following harvest has an empty list too)
         if x["type"] == "IndexError" and "read_model_parameters" in str(x["origin"]) and \
-                (pd.Timestamp(cfg["end"]) - pd.Timestamp(cfg["start"])).days < 366:
-            tag = ":window_under_one_year"
+                ("plant_years[0]" in str(x.get("stmt")) or "planting_dates[0]" in str(x.get("stmt"))):
+            tag = ":empty_season_list"
         return {"status": "exception", "exc": x, "cfg": cfg,
                 "violations": [dict(V("C16:raises:%s:%s%s" % (x["type"], x["origin"], tag), "valid configuration raised %s at %s: %s" % (x["type"], x["last"], x["msg"][:160]), exc=x), cfg=cfg)]}
     t = tables_of(m)
